@@ -22,6 +22,8 @@ structure St where
   /-- oracle: member of the first announce of the current failure run, and failures since -/
   from? : Option Nat := none
   k : Nat := 0
+  /-- oracle: the member `URL()` named in the implementation's last observation -/
+  implUrl : Option Nat := none
   tags : List String := []
 
 def addTag (s : St) (t : String) : St := if s.tags.contains t then s else { s with tags := t :: s.tags }
@@ -32,7 +34,7 @@ def step (s : St) (op implObs : String) : St × String × List String :=
   match toks.head? with
   | some "tier" =>
     let n := kvNat toks "n"
-    ({ t := new n, tags := s.tags }, "ok", [])
+    ({ t := new n, tags := s.tags, implUrl := some 0 }, "ok", [])
   | some "ann" =>
     let ok := kvBool toks "ok"
     let (i, t1) := announce s.t ok
@@ -55,6 +57,7 @@ def step (s : St) (op implObs : String) : St × String × List String :=
       else match s.from? with
         | some i0 => { s with t := t1, from? := some i0, k := s.k + 1 }
         | none => { s with t := t1, from? := some hit, k := 1 }
+    let s1 := { s1 with implUrl := (kv? itoks "url").bind (·.toNat?) }
     let s1 := addTag s1 (if ok then "branch:success" else "branch:failure")
     let s1 := if !ok ∧ i + 1 ≥ s.t.n then addTag s1 "branch:wrap" else s1
     let s1 := if s1.k > s.t.n ∧ s.t.n ≥ 2 then addTag s1 "nontrivial" else s1
@@ -73,9 +76,19 @@ def step (s : St) (op implObs : String) : St × String × List String :=
     | none => (s, "no-such-id", [])
     | some (_, i) =>
       let t1 := finish s.t i ok
-      let s1 := { s with t := t1, pending := s.pending.filter (·.1 ≠ id), from? := none, k := 0 }
+      -- oracle on the implementation's observations: the end of an announce that contacted member `i` moves the
+      -- tier by at most one position, and only from `i` (a failure that comes late, after the tier has moved on,
+      -- or the second of two concurrent failures, must not push it further: no member is skipped)
+      let implNow := (kv? itoks "url").bind (·.toNat?)
+      let viol := match s.implUrl, implNow with
+        | some before, some after =>
+          let want := if !ok ∧ before = i then (i + 1) % s.t.n else before
+          if after = want then [] else
+            [s!"C16 tier-skips-or-leaves-member n={s.t.n} contacted={i} ok={boolStr ok} before={before} after={after} want={want}"]
+        | _, _ => []
+      let s1 := { s with t := t1, pending := s.pending.filter (·.1 ≠ id), from? := none, k := 0, implUrl := implNow }
       let s1 := if !ok ∧ s.t.idx ≠ i then addTag s1 "branch:cas-lost" else s1
-      (s1, s!"url={load t1}", [])
+      (s1, s!"url={load t1}", viol)
   | _ => (s, "bad-op", [])
 
 def suite : Suite where
